@@ -256,6 +256,29 @@ theorem c12_no_lost_wakeup (max : Nat) (s : Status) (inner : InnerAns) (attempt 
     (poll { max := max } s inner attempt).woke = true ∨ (poll { max := max } s inner attempt).childHolds = true :=
   poll_wake { max := max } c12_wrapper_wakes_itself.2.1 c12_wrapper_wakes_itself.1 c12_wrapper_wakes_itself.2.2 s inner attempt h
 
+/-- `close()` during an outage does not strand the task either: `poll_close` keeps the reconnection going (regenerated),
+    so a Pending answer comes with a waker held or fired, as for the other operations. -/
+theorem c12_close_no_lost_wakeup (max : Nat) (s : Status) (inner : InnerAns) (attempt : AttemptAns)
+    (h : (pollClose { max := max } closeKeepsReconnecting s inner attempt).seen = .pending) :
+    (pollClose { max := max } closeKeepsReconnecting s inner attempt).woke = true ∨
+    (pollClose { max := max } closeKeepsReconnecting s inner attempt).childHolds = true := by
+  have hk : closeKeepsReconnecting = true := by decide
+  rw [hk] at h ⊢
+  cases s with
+  | connected => cases inner <;> simp [pollClose] at h ⊢
+  | exhausted => simp [pollClose] at h
+  | disconnected left =>
+    simp only [pollClose, if_true] at h ⊢
+    exact c12_no_lost_wakeup max (.disconnected left) inner attempt h
+
+/-- The defect this guards against, for the record: a `poll_close` that answers Pending while Disconnected without polling
+    anything leaves the task with no waker at all. -/
+theorem c12_close_without_polling_strands_the_task (max left : Nat) (inner : InnerAns) (attempt : AttemptAns) :
+    (pollClose { max := max } false (.disconnected left) inner attempt).seen = .pending ∧
+    (pollClose { max := max } false (.disconnected left) inner attempt).woke = false ∧
+    (pollClose { max := max } false (.disconnected left) inner attempt).childHolds = false := by
+  simp [pollClose]
+
 /-- one more failed attempt while `left` are still in the iterator -/
 theorem drive_disconnected (c : Cfg) (hA : c.wakeArm = true) (hE : c.wakeExhaust = true) (left extra : Nat) :
     driveUntilValue c (left + 2 + extra) (.disconnected left) =
@@ -314,6 +337,8 @@ end Selium.KeepAlive
 #print axioms Selium.KeepAlive.poll_wake
 #print axioms Selium.KeepAlive.c12_no_lost_wakeup
 #print axioms Selium.KeepAlive.drive_connected
+#print axioms Selium.KeepAlive.c12_close_no_lost_wakeup
+#print axioms Selium.KeepAlive.c12_close_without_polling_strands_the_task
 #print axioms Selium.KeepAlive.drive_disconnected
 #print axioms Selium.KeepAlive.c12_exhaustion_is_reported
 #print axioms Selium.KeepAlive.c12_silent_exhaustion_hangs
